@@ -141,7 +141,7 @@ func ClassValues(m string) []interface{} {
 		return []interface{}{[]time.Duration(nil), []time.Duration{}, []time.Duration{time.Millisecond + 1, -1}}
 	case "Interface", "Any":
 		var nilInt *int
-		return []interface{}{nil, 1, "s\"\xff", 1.5, plainStruct{1, EscapeLike, nil}, map[string]interface{}{"z": 1, "a": []int{1}}, make(chan int), ObjV{Fields: []Field{{M: "Str", Key: "in", Val: "o"}}}, json.RawMessage(`{"r":1}`), []int{1, 2}, nilInt, (*ObjP)(nil), math.NaN(), []byte("b"), "<& "}
+		return []interface{}{nil, 1, "s\"\xff", 1.5, plainStruct{1, EscapeLike, nil}, map[string]interface{}{"z": 1, "a": []int{1}}, make(chan int), ObjV{Fields: []Field{{M: "Str", Key: "in", Val: "o"}}}, json.RawMessage(`{"r":1}`), []int{1, 2}, nilInt, (*ObjP)(nil), math.NaN(), []byte("b"), "<& ", BadJSON{"bad\x01\x7f\v\a\xff\"\\ <é\u2028"}}
 	case "Type":
 		// the type string of an anonymous struct carries its tags verbatim: quotes, backslashes, control bytes
 		return []interface{}{nil, 1, "s", ObjV{}, (*PErr)(nil), struct {
